@@ -27,6 +27,18 @@ def c02_case(assigns, summary, forms=None):
 
 
 
+def c14_rebind_cases():
+    from rmc import explore
+    from checks import c14
+
+    out = []
+    for case in c14.generate("quick"):
+        d = case["desc"]
+        if d.get("rebind") in (["lcd_par", "lcd_i2c"], ["lcd_i2c", "lcd_par"]):
+            out.append({"key": explore.history_key("C14", "script", [("src", (case["src"],), {})]), "summary": f"dev bound to {d['rebind'][0]} then to {d['rebind'][1]}", "case": {"src": case["src"], "want": case["want"], "desc": d}})
+    return out
+
+
 def c05_case(*args):
     case = c05.build(*args)
     case = {k: v for k, v in case.items() if k != "id"}
@@ -165,6 +177,9 @@ FINDINGS = [
          cases=[c02_case([("int_lit", "top"), ("bool_expr", "top"), ("int_expr", "top")], "x = 3; x, side1 = a > 2, 1; x = a + 1; d = x", ("plain", "tuple", "plain"))]),
     dict(id="KF-C11-elif-quadratic", property="C11", status="fixed", commit="3b8dc05",
          what="an elif header with a long run of blanks inside its condition took quadratic time (40 000 blanks: 6 s; 80 000: killed after 20 s)", cases=[]),
+    dict(id="KF-C14-lcd-rebind", property="C14", status="open", commit=None,
+         what="one name bound first to a parallel LCD and later to an I2C LCD (or the reverse): both libraries are requested, but the emitter keeps only the first display (one header, one object); outside the documented style, like KF-C05-rebind",
+         cases=c14_rebind_cases()),
     dict(id="KF-C05-rebind", property="C05", status="open", commit=None,
          what="a Servo or Button name declared before the main loop and re-bound to another pin at the top of the loop body keeps driving/sampling the first pin (CPython uses the new object)",
          cases=[c05_case(("servo",), ("both",), ("loop",), True, 2), c05_case(("button",), ("both",), ("loop",), True, 2)]),
